@@ -72,15 +72,96 @@ def oracle(case, go, mo):
     return None
 
 
+# ---------------------------------------------------------------- the same through real files (file.go: ids, setParents)
+def files_case(rng):
+    """a filename chain of 2-3 stream files; every document of a child file has ALL documents of its parent file as
+    parents (file.go:setParents), ids are assigned by the loader"""
+    import formats
+    kinds = ["A", "B", "C"]
+    nb = rng.randint(1, 4)
+    base = []
+    for i in range(nb):
+        d = small_doc(rng, rng.choice(kinds))
+        base.append(d)
+    layout = {}
+    names = ["s"]
+    exts = [rng.choice(["yaml", "json", "yml"])]
+    layout[f"s.{exts[0]}"] = {"fmt": exts[0], "docs": base}
+    all_docs = list(base)
+    for li in range(1, rng.randint(2, 3)):
+        docs = []
+        for di in range(rng.randint(1, 3)):
+            target = rng.choice(all_docs)
+            if rng.random() < 0.6:
+                # additive: applies to every document it is merged into
+                patch = {"n%d_%d" % (li, di): rng.choice([di, "v", {"deep": [li]}]), "lst": [li * 10 + di]}
+            else:
+                patch = gen.patch_for(rng, target, misplace=0.0)
+                if not isinstance(patch, dict):
+                    patch = {"n%d" % li: di}
+            patch.pop("kind", None)
+            r = rng.random()
+            if r < 0.45:
+                pass
+            elif r < 0.7:
+                patch["$match"] = {"kind": target.get("kind", "A")}
+            elif r < 0.8:
+                patch["$match"] = {"kind": "nosuch"}
+            elif r < 0.92:
+                patch["$match"] = None
+                patch["kind"] = rng.choice(kinds)
+            else:
+                patch["$match"] = {"kind": target.get("kind", "A"), "$invert": True}
+            docs.append(patch)
+            all_docs.append(patch)
+        names.append(names[-1] + ".l%d" % li)
+        e = rng.choice(["yaml", "json"])
+        exts.append(e)
+        layout[f"{names[-1]}.{e}"] = {"fmt": e, "docs": docs}
+    return {"layout": layout, "opts": {"inputs": [f"{names[-1]}.{exts[-1]}"], "format": "json"}, "meta": {"kind": "stream-files"}}
+
+
+def files_stage(rep, rng, n):
+    from cli import pmap
+    from common import run_model
+    from fscheck import run_case, compare_with_model
+    cases = [files_case(rng) for _ in range(n)]
+    res = pmap(run_case, cases)
+    ops = []
+    for i, (obs, op) in enumerate(res):
+        op["id"] = i
+        ops.append(op)
+    mres = run_model(ops)
+    for i, (c, (obs, op)) in enumerate(zip(cases, res)):
+        rep.case(["files", c["layout"]], len(c["layout"]) >= 2, sample={"files": sorted(c["layout"]), "rc": obs["rc"]} if i < 2 else None)
+        rep.count(f"files:rc{obs['rc']}")
+        rep.traces += 1
+        d = compare_with_model(obs, mres.get(i))
+        if d and len(rep.violations) < 5:
+            rep.disagreements_checked += 1
+            rep.violation("stream files: " + d, {"case": {"files": c}, "observed": obs, "model": mres.get(i)})
+
+
 def run(rep):
     standard_run(rep, PID, gen_case, nontrivial, "document targeting / per-document result differs", 3000, 150000,
                  "base streams of 1-4 documents + 1-3 further layers of 1-3 documents (file-style parent links, occasionally a "
                  "non-adjacent parent layer), document-level $match hitting / missing / $invert / null / structural sub-patterns; "
                  "every MergeDocument result, intermediate Documents() snapshots and final outputs are compared with the model; "
                  "the separation monitor (`alias` step) counts containers shared between documents; non-trivial = >= 3 documents merged")
+    import random
+    files_stage(rep, random.Random(rep.seed + 31), 300 if rep.tier == "quick" else 12000)
     # separation monitor summary
     rep.assumptions.append("value-semantic model is a faithful abstraction of the Go heap only while no container is shared between documents; the `alias` step measures this")
 
 
 def replay(rep, payload):
+    if "files" in payload.get("case", {}):
+        from common import run_model
+        from fscheck import run_case, compare_with_model
+        obs, op = run_case(payload["case"]["files"])
+        op["id"] = 0
+        m = run_model([op]).get(0)
+        d = compare_with_model(obs, m)
+        print(obs, m, d)
+        return 1 if d else 0
     return standard_replay(payload)
